@@ -204,3 +204,35 @@ def compare_with_reference(model: Model, impl_q: str, ref_q: str, types: dict[st
 def _sh(x: Any) -> str:
     s = x if isinstance(x, str) else show(x)
     return s if len(s) <= 420 else s[:419] + "…"
+
+
+def load_reference(model: Model, name: str, filename: str) -> None:
+    """Index yv/refs/<filename> as module `name`; every repository name it imports must still exist (else: anchor vanished -> exit 2)."""
+    import os
+
+    from .model import AnalysisError
+
+    path = os.path.join(os.path.dirname(os.path.abspath(__file__)), "refs", filename)
+    with open(path, encoding="utf-8") as fh:
+        src = fh.read()
+    m = model.add_reference_module(name, src)
+    for _local, target in m.imports.items():
+        if target.startswith("y0.") and model.resolve_qualified(target) is None:
+            raise AnalysisError(f"anchor vanished: the reference definitions use {target}, which the repository no longer defines")
+
+
+def run_table(model: Model, rep, table, ref_module: str, mk, sa: SetAlg, infeasible=None, construct=None, loc=None, ignore_raises_for=()):
+    """table rows: (rule, implementation qname, reference function, parameter types, primitives, role, words)."""
+    for rule, impl, ref, types, prims, role, words in table:
+        f = model.func(impl)
+        fobj, verdict, detail, sample = compare_with_reference(
+            model, impl, f"{ref_module}.{ref}", types, mk(model, prims), sa, infeasible=infeasible, ignore_raises=impl in ignore_raises_for)
+        sample["definition"] = words
+        cons = construct(f, role)
+        if verdict == "PROVEN":
+            rep.proven(rule, cons, loc=loc(f), sample=sample)
+        elif verdict == "REFUTED":
+            d = detail if len(detail) <= 900 else detail[:899] + "…"
+            rep.refuted(rule, cons, f"deviates from the definition ({words}): {d}", loc(f), sample=sample)
+        else:
+            rep.unknown(rule, cons, detail, loc(f))
